@@ -25,7 +25,10 @@ import (
 //go:embed scripts.cfg
 var scriptsCfg string
 
-type scriptTarget struct{ prop, dir, recv, fn string }
+type scriptTarget struct {
+	prop, dir, recv, fn string
+	optional            bool // "?func" in scripts.cfg: a function only some reviewed variants of the tree have; absent = empty text
+}
 
 func scriptTargets() []scriptTarget {
 	var out []scriptTarget
@@ -42,8 +45,9 @@ func scriptTargets() []scriptTarget {
 		if recv == "-" {
 			recv = ""
 		}
+		fn, optional := strings.TrimPrefix(f[3], "?"), strings.HasPrefix(f[3], "?")
 		for _, p := range strings.Split(f[0], ",") {
-			out = append(out, scriptTarget{p, f[1], recv, f[3]})
+			out = append(out, scriptTarget{p, f[1], recv, fn, optional})
 		}
 	}
 	return out
@@ -105,7 +109,9 @@ func parserParse(fs *token.FileSet, path string, src []byte) (*ast.File, error) 
 	return parser.ParseFile(fs, path, src, 0)
 }
 
-func funcScript(dir, recv, fn string) []string {
+func funcScript(dir, recv, fn string) []string { return funcScriptOpt(dir, recv, fn, false) }
+
+func funcScriptOpt(dir, recv, fn string, optional bool) []string {
 	// parse a private copy without comments so that the shared cache (with comments) stays untouched
 	var fd *ast.FuncDecl
 	ents, err := os.ReadDir(filepath.Join(repo, dir))
@@ -141,6 +147,9 @@ func funcScript(dir, recv, fn string) []string {
 				fd = g
 			}
 		}
+	}
+	if fd == nil && optional {
+		return nil
 	}
 	if fd == nil {
 		die("scripts: function %s.%s not found in %s", recv, fn, dir)
@@ -199,7 +208,7 @@ func genScripts() {
 			seen[n] = true
 			k := t.dir + "|" + t.recv + "|" + t.fn
 			if _, ok := cache[k]; !ok {
-				cache[k] = funcScript(t.dir, t.recv, t.fn)
+				cache[k] = funcScriptOpt(t.dir, t.recv, t.fn, t.optional)
 			}
 			l.pf("/-- %s: %s%s -/\ndef %s : List String := [\n", t.dir, map[bool]string{true: t.recv + ".", false: ""}[t.recv != ""], t.fn, n)
 			for i, s := range cache[k] {
@@ -237,7 +246,7 @@ func writeGolden(out string) {
 				continue
 			}
 			seen[n] = true
-			sc := funcScript(t.dir, t.recv, t.fn)
+			sc := funcScriptOpt(t.dir, t.recv, t.fn, t.optional)
 			sb.WriteString("\ntheorem tie_src_" + n + " : Gen.Scripts" + p + "." + n + " = [\n")
 			for i, s := range sc {
 				sep := ","
